@@ -231,7 +231,12 @@ def r06_3(ctx):
     fa = repo.find_class("FromArray")
     lo = fa.methods.get("lower_once")
     new = fa.methods.get("__new__")
-    need(lo is not None and new is not None, "FromArray.lower_once / FromArray.__new__")
+    need(new is not None, "FromArray.__new__")
+    if lo is None:
+        hit = repo.class_attr(fa, "lower_once")
+        rr.inst(f"{fa.construct}::lower_once", present=False)
+        ctx.finding(rr, f"{fa.construct}::lower_once", f"FromArray no longer overrides lower_once (lookups resolve to {hit[0].name if hit else 'nothing'}.lower_once): exact-name sources enter the name-keyed lowering cache", file=fa.module.path, line=fa.node.lineno)
+        return rr
     cfg = cfg_of(ctx, lo)
     ok_lo = False
     for r in cfg.returns:
